@@ -2,6 +2,7 @@
 import os
 
 from contracts.c01_programs import ProgramsContract, catalogue
+from contracts.c20_graph import CONTRACTS as GRAPH_CONTRACTS
 from props.parser_bounded import GraphEdges
 from verif.spec import PropertySpec
 
@@ -10,15 +11,21 @@ _seed = int(os.environ.get('VERIF_SEED', '0'))
 
 PROPERTY = PropertySpec(
     id='C20',
-    contracts=[ProgramsContract(catalogue(_tier, _seed))],
+    contracts=[ProgramsContract(catalogue(_tier, _seed))] + list(GRAPH_CONTRACTS),
     bounded=[GraphEdges()],
     level='other',
     explanation='Per program (deductive, all data): the generated statement for y reads exactly the cells (x, t+k) of the terms of y\'s '
                 'equation and every such term is read - so "no edge means no influence" and "every edge is read" hold for all data once the '
-                'graph\'s edges equal the tree\'s terms. That the graph built by symbols_to_graph has exactly those nodes/edges is a fact '
-                'about re-tokenising the normalised equations (regex) and is decided by the bounded run, together with a perturbation test.',
-    level_text='per-program deductive read sets + bounded graph comparison and perturbation on the real tool',
-    level_note='trusted: grammar; regex engine outside the verifier; networkx DiGraph.add_nodes_from/add_edge',
-    technique='per-program contract-based deductive verification (read sets) + bounded run-time contract on symbols_to_graph',
+                'graph\'s edges equal the tree\'s terms. symbols_to_graph itself is under contract (contracts/c20_graph.py): for every list of 0-3 symbols with '
+                'arbitrary equation strings (enumerated: which symbols carry an equation, 1-2 left and 0-2 right terms per equation) the tokeniser is applied to '
+                'exactly the text left and right of the first "=" of each equation, every left-hand-side term becomes a node carrying that equation, the edges '
+                'inserted are exactly the pairs (right-hand-side term -> left-hand-side term) of the same equation, nothing else is inserted, the one graph built is '
+                'returned and the symbol list is untouched - against assumed contracts of term_re.finditer (uninterpreted token sequence) and networkx.DiGraph '
+                '(insertion log). That the real regex reports exactly the tree\'s terms on real normalised equations is decided by the bounded run, together '
+                'with a perturbation test.',
+    level_text='per-program deductive read sets + deductive wiring contract of symbols_to_graph + bounded graph comparison and perturbation on the real tool',
+    level_note='trusted: grammar; regex engine outside the verifier (term_re.finditer assumed: uninterpreted token sequence); networkx DiGraph.add_nodes_from/add_node/add_edge/add_edges_from (assumed: insertion log); '
+               'precondition: every Symbol.equation contains "=" (the parser\'s normal form) and left-hand-side terms of different equations differ',
+    technique='contract-based deductive verification (pyvc + z3): per-program read sets and the wiring contract of symbols_to_graph; bounded run-time contract on the real regex + networkx',
     design_ref='DESIGN.md section 10 / C20',
 )
